@@ -78,7 +78,13 @@ class Sub:
                 if ev.get('event_name') in (SUBSCRIBED, UNSUBSCRIBED):
                     self.got.append(('ack', ev['event_name']))
                 else:
-                    self.got.append(('ev', ev['event_payload']['id']))
+                    pl = ev.get('event_payload')
+                    if isinstance(pl, dict) and 'id' in pl:
+                        self.got.append(('ev', pl['id']))
+                    else:
+                        # not an acknowledgement and not anything that was published: the channel carries a message of
+                        # the bus's own making
+                        self.got.append(('stray', ev.get('event_name')))
         except (EOFError, OSError):
             pass
 
@@ -269,6 +275,9 @@ class Reader(threading.Thread):
                     self.unsubscribed.set()
                 elif name == eventNames.DISPATCHER_SHUTDOWN:
                     self.log.append('SHUTDOWN')
+                elif not (isinstance(ev.get('event_payload'), dict) and 'id' in ev['event_payload']):
+                    self.got.append(('stray', name))      # type: ignore[arg-type]
+                    self.log.append(('stray', name))
                 else:
                     pid_n = tuple(ev['event_payload']['id'])
                     self.got.append(pid_n)      # type: ignore[arg-type]
